@@ -54,6 +54,9 @@ CLAIMED = {
  'C23': dict(
     text='Partial claim (temperature scales), bounded symbolic model checking through the whole real pipeline: the real module physics::temperature_conversion is imported into a real session; for a symbolic double x with |x| <= 10^6 the programs celsius(from_celsius(x)) and from_celsius(celsius(x kelvin)), also with the temperature written in millikelvin (thorough tier: the Fahrenheit pair and further prefixes as well) are interpreted, and the solver proves the round trip restores x within 1e-9 (1e-8) on every feasible path. This is a floating-point tolerance claim that is decidable because the Celsius pair only adds and subtracts a constant.',
     design_ref='DESIGN.md §0a / §4 C23', technique='symbolic execution of LLVM IR (whole interpreter pipeline) + SMT (z3 QF_FP), native replay'),
+ 'C06': dict(
+    text='Partial claim (definitions followed by a failing expression statement in the same input), bounded symbolic model checking through the whole real pipeline: an input consists of concrete successful definitions (six families: a variable; a redefinition of an existing function; a derived unit; a new dimension with a unit; a variable shadowing an existing one; a struct) followed by an expression statement whose token kinds are symbolic (37-kind alphabet; every sequence up to the stated length, and templates around run-time failures — division by zero, factorial of a negative number — with symbolic operators). Whenever Context::interpret rejects the input — parse error, unknown name, type error or run-time error — every probe expression must give the same value or the same class of error as before the input, and re-submitting the successful definitions followed by the probes must behave exactly as in a twin session that never saw the failing input. Failing inputs that import modules (the defect named in the property text) are outside this kernel.',
+    design_ref='DESIGN.md §0a C06', technique='symbolic execution of LLVM IR (whole interpreter pipeline) over symbolic token kinds + SMT (z3 QF_BV), twin-session differential, native replay'),
  'C16': dict(
     text='Partial claim (two-parameter functions whose bodies are operator expressions), bounded symbolic model checking through the whole real pipeline: the body\'s token kinds are symbolic (37-kind expression alphabet; every sequence up to the stated length that the real parser accepts, and longer templates — sums, products, quotients, integer powers, comparisons, conditionals, parentheses — with symbolic operator positions); `fn g(a, b) = body` is interpreted without annotations in a session with two base dimensions; if the checker accepts it, the statement it echoes (the inferred signature spelled out, generic parameters with their Dim bounds) is interpreted as a re-declaration and must be accepted and echo the same signature, and each of five call sites (scalars, one unit, the same unit twice, two units, a square) must be accepted or rejected identically, with the same type and the bit-identical value, before and after. Structure is enumerated by the solver exploring the parser; nothing here is a floating-point claim.',
     design_ref='DESIGN.md §0a C16', technique='symbolic execution of LLVM IR (whole interpreter pipeline) over symbolic token kinds + SMT (z3 QF_BV), replay-mode path exploration, native replay'),
@@ -63,7 +66,6 @@ CLAIMED = {
 }
 
 NOT_APPLICABLE = {
- 'C06': 'ranges over histories of source texts; no symbolic value reaches the rollback mechanism and symbolic source text is out of reach (hash-map keyword lookup, float parsing)',
  'C07': 'ranges over sequences of texts and split points; nothing value-dependent for a solver to decide',
  'C13': 'finite alias x prefix table: exhaustive enumeration is the tool; a solver would need symbolic identifiers through IndexMap hashing or a hand model of PrefixParser::parse instead of the code',
  'C17': 'finite set of module orders with no symbolic value; exhaustive enumeration is the tool',
